@@ -33,6 +33,6 @@ func main() {
 		}
 	}
 	if v != nil {
-		fmt.Printf("  violation: %s: %s\n", v.Class, v.Msg)
+		fmt.Printf("  violation: %s also=%v world=%s props=%v: %s\n", v.Class, v.Also, v.World, sim.Attribute(tr, v), v.Msg)
 	}
 }
